@@ -69,6 +69,7 @@ func NewConn(name string, in []byte) *Conn {
 }
 
 func (c *Conn) Read(b []byte) (int, error) {
+	Yield("read")
 	c.Ops++
 	idx := c.NReads
 	c.NReads++
@@ -94,7 +95,9 @@ func (c *Conn) Read(b []byte) (int, error) {
 			return 0, ErrDeadline
 		}
 		if Symbolic() {
-			Block("read on " + c.Name + " with no more scripted data")
+			BlockUntil(func() bool { return c.Closed }, "read on "+c.Name+" with no more scripted data")
+			// (only reached under the cooperative scheduler, after the connection was closed)
+			return 0, net.ErrClosed
 		}
 		// native replay: block like a real idle connection until Close
 		<-c.closedCh()
@@ -121,6 +124,7 @@ func (c *Conn) Read(b []byte) (int, error) {
 }
 
 func (c *Conn) Write(b []byte) (int, error) {
+	Yield("write")
 	c.Ops++
 	idx := c.NWrites
 	c.NWrites++
@@ -137,6 +141,7 @@ func (c *Conn) Write(b []byte) (int, error) {
 }
 
 func (c *Conn) Close() error {
+	Yield("close")
 	c.Ops++
 	c.NCloses++
 	if c.Closed {
